@@ -5,7 +5,12 @@
 //!   0 i8, 1 i16, 2 I24, 3 i32, 4 I48, 5 i64, 6 u8, 7 u16, 8 U24, 9 u32, 10 U48, 11 u64
 //! ops:
 //!   vals  v1 v2 ...        one observation per value: `0 r` (to_sample and from_sample both returned r),
-//!                          `7 r1 r2` (they differ), `8 k` (panic of kind k)
+//!                          `7 r1 r2` (they differ), `8 k` (panic of kind k),
+//!                          `6 r` (returned r, but the target is I24/U24/I48/U48 and `T::new(r)` is not `Some(r)`:
+//!                          not a valid value of the target format by the crate's own validity check)
+//!   ovals v1 v2 ...        the given values against the i128 oracle (same output as sweep)
+//!   consts <fmt> 0         `0 MIN MAX <T as Sample>::EQUILIBRIUM types::EQUILIBRIUM new(MIN)ok new(MAX)ok new(MIN-1)none new(MAX+1)none`
+//!                          the crate's own constants (types::i24::MIN etc. / the primitive's) and its validity check at the ends
 //!   range lo n             digest of the observations of lo, lo+1, .., lo+n-1 (same digest as Sample/ConvRun.v)
 //!   sweep lo n step        compares with the independent i128 oracle of the SPECIFICATION on lo, lo+step, ...
 //!   rand  seed n           same on n pseudo-random in-range values (half uniform, half near powers of two)
@@ -24,6 +29,9 @@ trait Fmt: Copy + Sample {
     const SIGNED: bool;
     fn mk(v: i128) -> Self;
     fn val(self) -> i128;
+    /// the crate's own validity check of a value of this format (`T::new`); primitives are always valid
+    fn valid(self) -> bool;
+    fn consts() -> Vec<i128>;
 }
 
 macro_rules! prim_fmt {
@@ -33,22 +41,35 @@ macro_rules! prim_fmt {
             const SIGNED: bool = $signed;
             #[inline] fn mk(v: i128) -> Self { v as $T }
             #[inline] fn val(self) -> i128 { self as i128 }
+            #[inline] fn valid(self) -> bool { true }
+            fn consts() -> Vec<i128> {
+                let eq = <$T as Sample>::EQUILIBRIUM as i128;
+                vec![<$T>::MIN as i128, <$T>::MAX as i128, eq, eq, 1, 1, 1, 1]
+            }
         }
     )*};
 }
 prim_fmt! { i8, 8, true; i16, 16, true; i32, 32, true; i64, 64, true; u8, 8, false; u16, 16, false; u32, 32, false; u64, 64, false; }
 
 macro_rules! custom_fmt {
-    ($($T:ident, $Rep:ty, $bits:expr, $signed:expr;)*) => {$(
+    ($($T:ident, $m:ident, $Rep:ty, $bits:expr, $signed:expr;)*) => {$(
         impl Fmt for $T {
             const BITS: u32 = $bits;
             const SIGNED: bool = $signed;
             #[inline] fn mk(v: i128) -> Self { $T::new_unchecked(v as $Rep) }
             #[inline] fn val(self) -> i128 { self.inner() as i128 }
+            #[inline] fn valid(self) -> bool { $T::new(self.inner()) == Some(self) }
+            fn consts() -> Vec<i128> {
+                use dasp_sample::types::$m;
+                let (lo, hi) = ($m::MIN.inner(), $m::MAX.inner());
+                vec![lo as i128, hi as i128, <$T as Sample>::EQUILIBRIUM.inner() as i128, $m::EQUILIBRIUM.inner() as i128,
+                     $T::new(lo).is_some() as i128, $T::new(hi).is_some() as i128,
+                     $T::new(lo - 1).is_none() as i128, $T::new(hi + 1).is_none() as i128]
+            }
         }
     )*};
 }
-custom_fmt! { I24, i32, 24, true; I48, i64, 48, true; U24, i32, 24, false; U48, i64, 48, false; }
+custom_fmt! { I24, i24, i32, 24, true; I48, i48, i64, 48, true; U24, u24, i32, 24, false; U48, u48, i64, 48, false; }
 
 fn fmin<S: Fmt>() -> i128 { if S::SIGNED { -(1i128 << (S::BITS - 1)) } else { 0 } }
 fn fmax<S: Fmt>() -> i128 { if S::SIGNED { (1i128 << (S::BITS - 1)) - 1 } else { (1i128 << S::BITS) - 1 } }
@@ -63,7 +84,7 @@ fn spec<S: Fmt, D: Fmt>(v: i128) -> i128 {
 }
 
 #[inline]
-fn both<S, D>(v: i128) -> (i128, i128)
+fn both<S, D>(v: i128) -> (i128, i128, bool)
 where
     S: Fmt + ToSample<D>,
     D: Fmt + FromSample<S>,
@@ -71,7 +92,7 @@ where
     let s = S::mk(v);
     let a: D = s.to_sample::<D>();
     let b: D = D::from_sample(s);
-    (a.val(), b.val())
+    (a.val(), b.val(), a.valid() && b.valid())
 }
 
 const DIG_P: u128 = (1u128 << 61) - 1;
@@ -96,8 +117,8 @@ where
     D: Fmt + FromSample<S>,
 {
     match catch(|| both::<S, D>(v)) {
-        Ok((a, b)) if a == b => (0, a, b),
-        Ok((a, b)) => (7, a, b),
+        Ok((a, b, ok)) if a == b => (if ok { 0 } else { 6 }, a, b),
+        Ok((a, b, _)) => (7, a, b),
         Err(k) => (8, k as i128, k as i128),
     }
 }
@@ -112,6 +133,7 @@ where
             .iter()
             .map(|&v| match one::<S, D>(v) {
                 (0, r, _) => format!("0 {}", r),
+                (6, r, _) => format!("6 {}", r),
                 (7, r1, r2) => format!("7 {} {}", r1, r2),
                 (_, k, _) => format!("8 {}", k),
             })
@@ -130,13 +152,15 @@ where
             }
             format!("{}", acc)
         }
-        "sweep" | "rand" => {
+        "sweep" | "rand" | "ovals" => {
             let (lo_r, hi_r) = (fmin::<S>(), fmax::<S>());
             let total = (hi_r - lo_r + 1) as u128;
-            let mut rng = Xs((a[0] as u64) | 1);
-            let n = a[1] as u64;
+            let mut rng = Xs((a.get(0).copied().unwrap_or(1) as u64) | 1);
+            let n = if op == "ovals" { a.len() as u64 } else { a[1] as u64 };
             let gen = |i: u64, rng: &mut Xs| -> i128 {
-                if op == "sweep" {
+                if op == "ovals" {
+                    a[i as usize]
+                } else if op == "sweep" {
                     a[0] + (i as i128) * a[2]
                 } else {
                     let r = rng.next();
@@ -159,12 +183,12 @@ where
                 let mut nfail = 0u64;
                 for i in 0..n {
                     let v = gen(i, &mut rng_fast);
-                    let (x, y) = both::<S, D>(v);
+                    let (x, y, ok) = both::<S, D>(v);
                     let e = spec::<S, D>(v);
-                    if x != e || y != e {
+                    if x != e || y != e || !ok {
                         nfail += 1;
                         if first.is_none() {
-                            first = Some((v, if x != e { x } else { y }, e, if x != y { 7 } else { 0 }));
+                            first = Some((v, if x != e { x } else { y }, e, if x != y { 7 } else if x != e { 0 } else { 6 }));
                         }
                     }
                 }
@@ -224,6 +248,10 @@ where
         .join(";")
 }
 
+fn consts_of<S: Fmt>(_x: i128, _a: &[i128]) -> String {
+    format!("0 {}", S::consts().iter().map(|v| v.to_string()).collect::<Vec<_>>().join(" "))
+}
+
 macro_rules! by_fmt {
     ($c:expr, $f:ident, $x:expr, $a:expr) => {
         match $c {
@@ -262,6 +290,7 @@ fn main() {
         let t: Vec<i128> = it.map(|s| s.parse::<i128>().expect("int token")).collect();
         let (s, d, a) = (t[0], t[1], &t[2..]);
         match op {
+            "consts" => return by_fmt!(s, consts_of, d, a),
             "i2f" => return by_fmt!(s, i2f, d, a),
             "f2i" => return by_fmt!(d, f2i, s, a),
             "f2f" => {
